@@ -781,6 +781,28 @@ pub fn run(tier: Tier) -> i32 {
             models.push((D::Tr("KI".into(), vec![(1, t.clone()), (1, T::Check(Box::new(T::PkK("K9".into()))))]), KeyForm::XOnly));
         }
     }
+    // large script trees: balanced trees whose inner nodes sit at pre-order positions beyond 255 and
+    // 65535 would need 2^16 leaves (thorough only has 2^10), depth-limit caterpillars, a late big subtree
+    {
+        let leaf = |i: usize| T::Check(Box::new(T::PkK(format!("L{}", i))));
+        let balanced = |d: u8, at: u8, from: usize| -> Vec<(u8, T)> { (0..(1usize << d)).map(|i| (at + d, leaf(from + i))).collect() };
+        for d in [2u8, 3, 6, 8, 9].into_iter().chain(if tier == Tier::Thorough { vec![10u8] } else { vec![] }) {
+            models.push((D::Tr("KI".into(), balanced(d, 0, 0)), KeyForm::XOnly));
+        }
+        // a single leaf first, then a balanced 256-leaf subtree; and the mirror image
+        let mut late = vec![(1u8, leaf(1000))];
+        late.extend(balanced(8, 1, 0));
+        models.push((D::Tr("KI".into(), late), KeyForm::XOnly));
+        let mut early = balanced(8, 1, 0);
+        early.push((1u8, leaf(1000)));
+        models.push((D::Tr("KI".into(), early), KeyForm::Compressed));
+        // caterpillars at the depth limit, growing to the right and to the left
+        let mut right: Vec<(u8, T)> = (1..=128u8).map(|d| (d, leaf(d as usize))).collect();
+        right.push((128, leaf(129)));
+        models.push((D::Tr("KI".into(), right.clone()), KeyForm::XOnly));
+        right.reverse();
+        models.push((D::Tr("KI".into(), right), KeyForm::XOnly));
+    }
     let cen = models
         .par_iter()
         .fold(Census::new, |mut cen, (d, f)| {
